@@ -479,6 +479,7 @@ def check_property(pid, tier='quick', seed=0, witness_hook=None):
         for u in units:
             results.append(futs[u].result())
     extra_runs = []
+    cvc5_runs = []
     if tier == 'thorough':
         seeds = [seed * 3 + 1, seed * 3 + 2, seed * 3 + 3]
         with concurrent.futures.ThreadPoolExecutor(max_workers=8) as ex:
@@ -490,6 +491,15 @@ def check_property(pid, tier='quick', seed=0, witness_hook=None):
                 rr = fu.result()
                 extra_runs.append({'unit': u, 'config': what, 'status': rr.status, 'smt_ms': rr.smt_ms,
                                    'failures': [f['obligation'] for f in rr.failures]})
+        # second back end (informational: cvc5 1.0.3 is older than the version this Verus expects; it can only fail
+        # to prove, never refute): small units only, 300 s budget each
+        small = [r.unit for r in results if r.status == 'ok' and r.smt_ms < 1500]
+        with concurrent.futures.ThreadPoolExecutor(max_workers=4) as ex:
+            fs = [(u, ex.submit(verify_unit, u, False, ['-V', 'cvc5', '-V', 'no-solver-version-check', '--rlimit', '30'], '_%s_cvc5' % pid)) for u in small]
+            for u, fu in fs:
+                rr = fu.result()
+                cvc5_runs.append({'unit': u, 'config': 'cvc5 1.0.3 (version check skipped)', 'status': rr.status, 'smt_ms': rr.smt_ms,
+                                  'failures': [f['obligation'] for f in rr.failures][:5]})
     exit_code = 0
     violations = []
     fallback_violations = []
@@ -656,6 +666,7 @@ def check_property(pid, tier='quick', seed=0, witness_hook=None):
             'violations': vio_out,
             'undecided': undecided,
             'extra_runs': extra_runs,
+            'second_backend_runs': cvc5_runs,
             'bounded_supplement': [{k: v for k, v in x.items() if k in ('kind', 'found', 'evaluations', 'explain', 'error', 'tried_archives', 'wall_s')} for x in supplement],
             'mutants_expected': len([m for m in mutant_results if m['result'] != 'not-applicable']),
             'mutants_detected': len([m for m in mutant_results if m['result'] == 'detected']),
